@@ -30,6 +30,10 @@ CONSTANTS Cap,      \* channel capacity (4 in the code)
           Vias,     \* write entry points: "Write", "WriteString", "io.WriteString", "bufio" (a
                     \* bufio.Writer's WriteString + Flush).  They are ONE operation of the pipe: every
                     \* entry point obeys the same contract, in particular after Close
+          RVias,    \* "read everything" entry points: "io.Copy" (io.Copy(dst, conn): uses the conn's
+                    \* io.WriterTo if it has one), "bufio.WriteTo" ((*bufio.Reader).WriteTo), "io.ReadAll".
+                    \* Plain Read(k) is the Read action.  Whatever mix of entry points consumes the
+                    \* stream, every byte written is delivered exactly once, in order.
           MaxOps,   \* bound on completed calls
           Atomic    \* TRUE: no call of the other end starts while a Read is in progress
 
@@ -131,6 +135,21 @@ ReadStep(e) ==
        /\ UNCHANGED <<q, bb, rpos>>
   /\ UNCHANGED <<wpos, closed, acked>>
 
+RECURSIVE SumLen(_)
+SumLen(sq) == IF sq = <<>> THEN 0 ELSE Head(sq).len + SumLen(Tail(sq))
+
+\* io.Copy(dst, conn) / bufio.Reader.WriteTo / io.ReadAll: Read until an error.  It returns once the
+\* pipe is closed (EOF is not an error for these) or the read deadline has fired; until then it waits.
+\* It delivers the rest of the partially consumed buffer and then every queued buffer.
+ReadAll(e, dl, via) ==
+  LET s == Other(e)  total == bb[e].len + SumLen(q[s]) IN
+  /\ MayStart(e) /\ (closed \/ dl)
+  /\ rpos' = [rpos EXCEPT ![e] = @ + total]
+  /\ bb' = [bb EXCEPT ![e] = [from |-> rpos[e] + total, len |-> 0]]
+  /\ q' = [q EXCEPT ![s] = <<>>]
+  /\ DoneVia("ra", e, 0, dl, total, (IF closed THEN {""} ELSE {}) \cup (IF dl THEN {"timeout"} ELSE {}), rpos[e], via)
+  /\ UNCHANGED <<wpos, closed, rd, acked>>
+
 \* PipeConns.Close / Conn1().Close / Conn2().Close
 Close(e) ==
   /\ MayStart(e)
@@ -141,6 +160,7 @@ Close(e) ==
 Next ==
   \/ \E e \in Ends, n \in WSizes, dl \in BOOLEAN, via \in Vias : Write(e, n, dl, via)
   \/ \E e \in Ends, k \in RSizes, dl \in BOOLEAN : ReadBegin(e, k, dl)
+  \/ \E e \in Ends, dl \in BOOLEAN, via \in RVias : ReadAll(e, dl, via)
   \/ \E e \in Ends : ReadStep(e) \/ Close(e)
 
 Spec == Init /\ [][Next]_vars
@@ -163,7 +183,7 @@ StreamInv == \A e \in Ends :
 
 \* every Read returns one contiguous piece of the stream, directly following the previous
 \* Read's (last.from = stream position of the first byte copied by the call)
-ReadInOrder == (last.op = "r" /\ last.n > 0 /\ ~rd[last.e].on) => last.from + last.n = rpos[last.e]
+ReadInOrder == (last.op \in {"r", "ra"} /\ last.n > 0 /\ ~rd[last.e].on) => last.from + last.n = rpos[last.e]
 
 \* after Close: EOF only once everything written has been read; data stays readable
 EofOnlyWhenDrained ==
